@@ -70,23 +70,36 @@ func (n *VerifNode) Election(h primitives.BlockHeight, v primitives.View, moveTo
 
 // Sync: main loop's handling of UpdateState(block, proof), then the worker's.
 func (n *VerifNode) Sync(block interfaces.Block, prevBlockProofBytes []byte) {
+	if n.SyncMainHalf(block) {
+		n.SyncWorkerHalf(block, prevBlockProofBytes)
+	}
+}
+
+// SyncMainHalf: what the main loop does with an UpdateState request before the block is handed to the worker;
+// reports whether it is handed on. The worker may handle other events before SyncWorkerHalf runs.
+func (n *VerifNode) SyncMainHalf(block interfaces.Block) bool {
 	n.st.GcOldContexts()
 	var receivedBlockHeight primitives.BlockHeight
 	if block != nil {
 		receivedBlockHeight = block.Height()
 	}
 	if n.maxBlockHeightBySync != nil && *n.maxBlockHeightBySync >= receivedBlockHeight {
-		return
+		return false
 	}
 	hv := state.NewHeightView(receivedBlockHeight+1, 0)
 	n.st.Contexts.CancelOlderThan(hv)
 	if _, err := n.st.Contexts.For(hv); err != nil {
-		return
+		return false
 	}
 	if n.maxBlockHeightBySync == nil {
 		n.maxBlockHeightBySync = new(primitives.BlockHeight)
 	}
 	*n.maxBlockHeightBySync = receivedBlockHeight
+	return true
+}
+
+// SyncWorkerHalf: what the worker does when it takes the block from its channel.
+func (n *VerifNode) SyncWorkerHalf(block interfaces.Block, prevBlockProofBytes []byte) {
 	n.worker.handleUpdateState(&blockWithProof{block: block, prevBlockProofBytes: prevBlockProofBytes})
 }
 
